@@ -97,6 +97,9 @@ func historySweep(c *core.Ctx, sig string, alphabet []letter, exhaustLen, random
 		c.Hist(fmt.Sprintf("len=%d key=%v ack=%v", len(idx), cf.key != nil, cf.ack))
 		c.Distinct(fmt.Sprint(cf.model(), idx))
 		for i, x := range rs {
+			if x.ret == "hang" {
+				c.Violation("hang", sig+"-hang", "client method did not return in history "+name, map[string]interface{}{"cfg": cf.model(), "ops": name, "at": i})
+			}
 			if x.ret == "panic" {
 				c.Violation("panic", sig+"-panic", "client method panicked in history "+name, map[string]interface{}{"cfg": cf.model(), "ops": name, "at": i})
 			}
